@@ -70,10 +70,16 @@ BREAKING = [
  ('channel-id-unsorted', ['C20'], 'pubsub/oneonone/channel.go', '\tsort.Slice(channelIDPeers, func(i, j int) bool {\n\t\treturn strings.Compare(channelIDPeers[i], channelIDPeers[j]) < 0\n\t})\n', '\t_ = sort.Strings\n'),
  ('frame-writer-fixed-width', ['C20'], 'pubsub/directchannel/channel.go', '\tlenbuf := make([]byte, binary.MaxVarintLen64)\n\tn := binary.PutUvarint(lenbuf, length)\n', '\tlenbuf := make([]byte, 8)\n\tbinary.BigEndian.PutUint64(lenbuf, length)\n\tn := 8\n'),
  ('payload-attributed-to-local-peer', ['C20'], 'pubsub/directchannel/channel.go', 's.Conn().RemotePeer()', 's.Conn().LocalPeer()'),
+ ('wire-clock-read-unguarded', ['C12'], 'baseorbitdb/events_handler.go', '\t\tuntypedHeads = append(untypedHeads, h)\n', '\t\tif c := h.GetClock(); c != nil {\n\t\t\t_ = c.GetTime()\n\t\t}\n\t\tuntypedHeads = append(untypedHeads, h)\n'),
+ ('snapshot-entries-read-before-count', ['C13'], 'stores/basestore/utils.go', '\toplog := b.OpLog()\n', '\toplog := b.OpLog()\n\tall := oplog.GetEntries().Slice()\n'),
 ]
 
 # behaviour-preserving refactorings: every listed check must stay silent
 PRESERVING = [
+ ('snapshot-appenduint16', ['C13'], 'stores/basestore/utils.go', '\tsize := make([]byte, 2)\n\tbinary.BigEndian.PutUint16(size, uint16(headerSize))\n\trs := append(size, header...)\n', '\trs := binary.BigEndian.AppendUint16(nil, uint16(headerSize))\n\trs = append(rs, header...)\n'),
+ ('sync-load-in-closure', ['C02', 'C04', 'C10', 'C11', 'C12'], BS, '\tgo b.Replicator().Load(ctx, verified)\n', '\tgo func() {\n\t\tb.Replicator().Load(ctx, verified)\n\t}()\n'),
+ ('wire-clock-read-guarded', ['C12'], 'baseorbitdb/events_handler.go', '\t\tuntypedHeads = append(untypedHeads, h)\n', '\t\tif c := h.GetClock(); c != nil && c.Defined() {\n\t\t\t_ = c.GetTime()\n\t\t}\n\t\tuntypedHeads = append(untypedHeads, h)\n'),
+ ('snapshot-unrelated-entries-read-first', ['C13'], 'stores/basestore/utils.go', '\toplog := b.OpLog()\n', '\toplog := b.OpLog()\n\t_ = oplog.GetEntries().Len()\n'),
  ('persist-helper-extracted', ['C05', 'C16', 'C17', 'C01'], BS,
   '\tmarshaledEntry, err := json.Marshal([]ipfslog.Entry{e})\n\tif err != nil {\n\t\treturn nil, fmt.Errorf("unable to marshal entry: %w", err)\n\t}\n\n\terr = b.Cache().Put(ctx, datastore.NewKey("_localHeads"), marshaledEntry)\n\tif err != nil {\n\t\treturn nil, fmt.Errorf("unable to add data to cache: %w", err)\n\t}\n\n\treturn e, nil\n}',
   '\tif err := b.persistLocalHead(ctx, e); err != nil {\n\t\treturn nil, err\n\t}\n\n\treturn e, nil\n}\n\nfunc (b *BaseStore) persistLocalHead(ctx context.Context, e ipfslog.Entry) error {\n\traw, err := json.Marshal([]ipfslog.Entry{e})\n\tif err != nil {\n\t\treturn fmt.Errorf("unable to marshal entry: %w", err)\n\t}\n\n\tif err := b.Cache().Put(ctx, datastore.NewKey("_localHeads"), raw); err != nil {\n\t\treturn fmt.Errorf("unable to add data to cache: %w", err)\n\t}\n\n\treturn nil\n}'),
@@ -110,6 +116,8 @@ def apply_edit(d, f, old, new):
     if 'i.cached' in new:
         s = s.replace('type eventIndex struct {\n', 'type eventIndex struct {\n\tcached []ipfslog.Entry\n')
         s = s.replace('return i.index.Values().Slice()', 'return i.cached')
+    if 'all := oplog.GetEntries' in new:
+        s = s.replace('for _, e := range oplog.GetEntries().Slice() {', 'for _, e := range all {')
     if 'time.Now()' in new and '"time"' not in s:
         s = s.replace('import (\n', 'import (\n\t"time"\n', 1)
     if 'entry.NewOrderedMapFromEntries' in new and 'go-ipfs-log/entry"' not in s:
